@@ -74,6 +74,7 @@ typedef struct Node {
 	uint64_t ent_bytes;
 	int64_t efail_at;            /* draw index that fails (-1 none) */
 	int efail_rest;              /* 1: all later draws fail too */
+	int efail_errno;             /* errno the failing call reports (0 = leave errno untouched) */
 	int64_t eburst_at; int eburst_k; uint8_t eburst_val;
 	int efail_fired, eburst_fired;
 	uint64_t efail_step;         /* sim step at which the failure was injected */
